@@ -654,9 +654,40 @@ def multiscale_rule(ctx):
     return [res, st]
 
 
+def compose_call_rule(ctx):
+    """CMP-CALL.  A part is applied in its forward direction by *calling the module* -- `part(x, context)` --, which
+    is what runs the hooks torch attaches to a module: `weight_norm` / `spectral_norm` / parametrisations recompute
+    the weight in a forward pre-hook, user hooks pre-process inputs or replace outputs.  `part.forward(x, context)`
+    skips them, so the wrapper no longer computes what the part computes when called on its own (stale
+    re-parametrised weights after an optimiser step, un-hooked results).  The inverse direction has no such
+    protocol (`inverse` is a plain method).  Decided syntactically in the three wrapper classes: no reference to
+    the attribute `forward` of anything but `super()`."""
+    p = ctx.p
+    res = RuleResult("CMP-CALL", "CompositeTransform, MultiscaleCompositeTransform and InverseTransform apply their parts' forward direction by calling the module (hooks and re-parametrisations run), never through `.forward`")
+    n = 0
+    for cname in ("CompositeTransform", "MultiscaleCompositeTransform", "InverseTransform"):
+        cls = p.find_class(cname, "nflows.transforms.base")
+        if cls is None:
+            raise AnalysisIncomplete("class %s not found" % cname)
+        for mname, fi in cls.methods.items():
+            n += 1
+            for x in ast.walk(fi.node):
+                if isinstance(x, ast.Attribute) and x.attr == "forward" and isinstance(x.ctx, ast.Load):
+                    recv = x.value
+                    if isinstance(recv, ast.Call) and isinstance(recv.func, ast.Name) and recv.func.id == "super":
+                        continue
+                    if isinstance(recv, ast.Name) and recv.id in ("self", "cls") and mname != "forward":
+                        continue  # the wrapper's own forward, e.g. from __call__-like helpers
+                    res.fail(Finding("CMP-CALL", fi.module, fi.qualname, x, "%s.%s reaches a part through `%s` instead of calling the module: torch's forward pre-hooks and hooks of the part (weight_norm / spectral_norm re-parametrisations, user hooks) do not run, so the wrapper's result differs from the part's own `part(x)` whenever such a hook matters -- and the composite is then not the composition of its parts" % (cname, mname, norm_text(x)[:50]), construct="direct .forward of a part in %s.%s" % (cname, mname)))
+    if n < 8:
+        raise AnalysisIncomplete("CMP-CALL: %d wrapper methods examined (< 8)" % n)
+    res.ok("%d wrapper methods: parts are called, not `.forward`-ed" % n, nontrivial=False)
+    return res
+
+
 register(
     "C08",
-    [compose_eval_rule, thread_rule, order_rule, swap_rule, multiscale_rule],
+    [compose_eval_rule, thread_rule, order_rule, swap_rule, multiscale_rule, compose_call_rule],
     "CMP-EVAL: CompositeTransform (built by evaluating __init__ on k uninterpreted parts, k = 1..4) and InverseTransform are "
     "partially evaluated; forward must be T_k(...T_1(x)) and inverse T_1^-1(...T_k^-1(x)) with each part's log-det summed once, "
     "on the first and on the second call of the same object. CMP-THREAD: symbolic expansion of CompositeTransform._cascade: the returned outputs are component 0 of the loop function "
